@@ -23,4 +23,64 @@ impl From<LogRecord> for LogRecordDto {
     #[verifier::external_body]
     fn from(value: LogRecord) -> (r: Self) ensures r == rec_dto(value) { unimplemented!() }
 }
+
+// ------------------------------------------------------------------ binrw header I/O through std::io::Cursor (used by LogInnerManager::init only)
+/// 32-byte big-endian image of the header (binrw derive; not modelled byte by byte)
+pub uninterp spec fn hdr_bytes(h: LogIndexHeaderDo) -> Seq<u8>;
+/// the header a 32-byte image decodes to
+pub uninterp spec fn hdr_of(b: Seq<u8>) -> LogIndexHeaderDo;
+pub broadcast axiom fn axiom_hdr_roundtrip(h: LogIndexHeaderDo)
+    ensures #[trigger] hdr_bytes(h).len() == 32, hdr_of(hdr_bytes(h)) == h;
+
+impl LogIndexHeaderDo {
+    /// `impl Default` in model.rs is `Self::new()`: magic, data area at 4096, index interval 128, everything else 0
+    #[verifier::external_body]
+    pub fn default() -> (r: Self)
+        ensures r.magic == 0x42313644, r.version == 0, r.last_term == 0, r.first_index == 0, r.data_area_index == 4096, r.index_interval == 128,
+            r.all_index_count == 0, r.status == 0, r.ext1 == 0, r.ext2 == 0, r.ext3 == 0
+    { unimplemented!() }
+}
+pub struct Default {}
+impl Default { 
+    #[verifier::external_body]
+    pub fn default() -> (r: LogIndexHeaderDo)
+        ensures r.magic == 0x42313644, r.version == 0, r.last_term == 0, r.first_index == 0, r.data_area_index == 4096, r.index_interval == 128,
+            r.all_index_count == 0, r.status == 0, r.ext1 == 0, r.ext2 == 0, r.ext3 == 0
+    { unimplemented!() }
+}
+
+#[derive(Debug)]
+pub struct BinError { pub vx: u8 }
+
+pub struct Cursor<T> { pub inner: T, pub pos: u64 }
+impl<T> Cursor<T> {
+    pub fn new(inner: T) -> (r: Self) ensures r.inner == inner, r.pos == 0 { Cursor { inner, pos: 0 } }
+    pub fn set_position(&mut self, p: u64) ensures final(self).inner == old(self).inner, final(self).pos == p { self.pos = p; }
+    pub fn get_mut(&mut self) -> (r: &mut T)
+        ensures *r == old(self).inner, *final(r) == final(self).inner, final(self).pos == old(self).pos
+    { &mut self.inner }
+}
+impl Cursor<Vec<u8>> {
+    /// binrw `write_be` of the header at the cursor: overwrites 32 bytes
+    #[verifier::external_body]
+    pub fn write_be(&mut self, h: &LogIndexHeaderDo) -> (r: Result<(), BinError>)
+        requires old(self).pos == 0, old(self).inner@.len() >= 32
+        ensures r is Ok ==> final(self).inner@.len() == old(self).inner@.len() && final(self).inner@.take(32) == hdr_bytes(*h)
+            && final(self).inner@.skip(32) == old(self).inner@.skip(32),
+    { unimplemented!() }
+}
+impl<'a> Cursor<&'a Vec<u8>> {
+    /// binrw `read_be` of a header at the cursor
+    #[verifier::external_body]
+    pub fn read_be(&mut self) -> (r: Result<LogIndexHeaderDo, BinError>)
+        requires old(self).pos == 0
+        ensures final(self).inner == old(self).inner, r is Ok ==> old(self).inner@.len() >= 32 && r.unwrap() == hdr_of(old(self).inner@.take(32)),
+    { unimplemented!() }
+}
+} // verus!
+impl From<BinError> for crate::anyhow::Error {
+    fn from(_e: BinError) -> Self { crate::anyhow::Error { vx_opaque: 0 } }
+}
+verus! {
+pub assume_specification[ <crate::anyhow::Error as From<BinError>>::from ](e: BinError) -> (r: crate::anyhow::Error);
 } // verus!
